@@ -302,7 +302,7 @@ static Bytes ep_encrypt(Endpoint &e, const Bytes &m, const Bytes &ad, Rng *chunk
         bool inplace = chunker && !m.empty() && chunker->chance(1, 3);
         if (inplace) memcpy(c.p, mp, m.size());
         while (pos < m.size()) {
-            size_t n = chunker ? 1 + (size_t)chunker->below(m.size() - pos) : m.size() - pos;
+            size_t n = chunker ? (chunker->chance(1, 6) ? 0 : 1 + (size_t)chunker->below(m.size() - pos)) : m.size() - pos; // empty calls too
             const uint8_t *src = inplace ? c.p + pos : mp + pos;
             if (alg == A128) ascon128_aead_encrypt_block(&e.u.s128, src, c.p + pos, n);
             else if (alg == A128A) ascon128a_aead_encrypt_block(&e.u.s128a, src, c.p + pos, n);
@@ -384,7 +384,7 @@ static int ep_decrypt(Endpoint &e, const Bytes &x, const Bytes &ad, Bytes &m_out
         bool inplace = chunker && cap != 0 && chunker->chance(1, 3);
         if (inplace) memcpy(m.p, xp, cap);
         while (pos < cap) {
-            size_t n = chunker ? 1 + (size_t)chunker->below(cap - pos) : cap - pos;
+            size_t n = chunker ? (chunker->chance(1, 6) ? 0 : 1 + (size_t)chunker->below(cap - pos)) : cap - pos;
             const uint8_t *src = inplace ? m.p + pos : xp + pos;
             if (alg == A128) ascon128_aead_decrypt_block(&e.u.s128, src, m.p + pos, n);
             else if (alg == A128A) ascon128a_aead_decrypt_block(&e.u.s128a, src, m.p + pos, n);
